@@ -127,6 +127,8 @@ def run_type(chk, G, S, w, ty, x, xv, corr_fail):
         plist = list(streams.payloads(chk, G, S, w, u[1], n_mut=2, n_junk=1))
         plist += missing_key_payloads(chk, S, ty, u[1])
         plist += list(streams.validator_payloads(chk, G, S, w, ty, u[1]))
+        # missing parts at every depth below the top (a present component that is invalid must never be passed through)
+        plist += streams.deep_missing_key_payloads(chk, G, S, w, cfg, ty, u[1], limit=4, top=False)
         for kind, p, pv in plist:
             ri = S.impl_st(cfg, ty, p, payload=pv)
             case = {"world": w, "cfg": cfg, "ty": ty, "payload": p}
@@ -213,7 +215,12 @@ def run(chk: framework.Check):
                 if not gen.lookalike_hazard(x):
                     cases.append((("td", ci), x, xv))
                     chk.note("typeddict-class-as-type")
+        if len(chk.violations) >= 8:
+            break       # enough failing inputs recorded: stop exploring (a broken cattrs can also be arbitrarily slow)
         for ty, x, xv in cases:
+            if S.stats.get("call-timeout"):
+                chk.note("world-left-after-call-timeout")
+                break
             run_type(chk, G, S, w, ty, x, xv, corr_fail)
     for case, oi, rm in corr_fail[:5]:
         chk.violation(
@@ -225,6 +232,8 @@ def run(chk: framework.Check):
     # implementation-only extended stream (unions, NamedTuples, registry hooks, one-shot iterables)
     from harness import ext
     ext.run_c02(chk, 150 if chk.tier == "quick" else 1500)
+    # implementation-only: unsupported types (no hook, no converter) at typed positions must raise
+    ext.run_c02_unsupported(chk, 120 if chk.tier == "quick" else 1200)
     # implementation-only: hooks built with generator options (use_alias, include_init_false, override(omit=False / rename))
     ext.run_genopts(chk, 150 if chk.tier == "quick" else 1500, "C02")
     # implementation-only: Literal[...] over members of mix-in enums, position-wise equal literals in one process
